@@ -166,6 +166,17 @@ pub fn stf_interleavings(run: &Run, property: &str, scenarios: &[&str]) {
     let (mut total, mut models) = (0u64, 0u64);
     for name in scenarios {
         let secs: u64 = std::env::var("MCHECK_STFLOOM_DEADLINE").ok().and_then(|x| x.parse().ok()).unwrap_or(if run.thorough() { 900 } else { 150 });
+        // one budget for all lab scenarios of a check: a tree on which every scenario runs into its deadline must not turn a quick
+        // check into an hour (on the unchanged tree all scenarios together take seconds)
+        static LAB_TIME: std::sync::Mutex<Option<std::time::Instant>> = std::sync::Mutex::new(None);
+        let started = *LAB_TIME.lock().unwrap().get_or_insert_with(std::time::Instant::now);
+        let budget: u64 = std::env::var("MCHECK_STFLOOM_BUDGET").ok().and_then(|x| x.parse().ok()).unwrap_or(if run.thorough() { 5400 } else { 420 });
+        if started.elapsed().as_secs() > budget {
+            run.cap_hit(&format!("stfloom scenario {}: not run, the check's budget of {} s for lab scenarios is used up (earlier scenarios ran into their deadlines)", name, budget));
+            run.outcome("loom:apply_tx_batch:budget-used-up");
+            rows.push(json!({"scenario": name, "result": "not run: lab budget used up"}));
+            continue;
+        }
         let mut bound = bound;
         let mut out = None;
         for b in [bound, "2"] {
